@@ -16,6 +16,8 @@
 #include <asl/atomic.h>
 #include <algorithm>
 #include <atomic>
+#include <unistd.h>
+#include <thread>
 #include <set>
 using namespace asl;
 using namespace vh;
@@ -325,6 +327,91 @@ static std::string stressHandles(int nth, int iters)
 	return "ok";
 }
 
+
+// ---- further handle operations found missing by the defect hunt (free-running, judged by final values)
+struct CBase { int v; Tracked t; CBase() : v(5), t(9) {} virtual ~CBase() {} };
+struct CDer : public CBase { int d; CDer() : d(3) {} };
+
+// converting copies Shared<Der> -> Shared<Base> by several threads on one object, and as<Der>() back
+static std::string stressConv(int nth, int iters)
+{
+	Shared<CDer>* A = new Shared<CDer>(new CDer);
+	CDer* addr = A->get();
+	std::vector<Shared<CDer>*> own(nth);
+	for (int i = 0; i < nth; i++) own[i] = new Shared<CDer>(*A);
+	delete A;
+	std::atomic<long long> sum(0);
+	std::atomic<int> moved(0);
+	std::vector<std::thread> th;
+	for (int i = 0; i < nth; i++)
+		th.push_back(std::thread([i, iters, &own, &sum, &moved, addr]() {
+			for (int k = 0; k < iters; k++) {
+				Shared<CBase> b(*own[i]);
+				Shared<CBase> c;
+				c = *own[i];
+				sum += b->v + c->v;
+				if (own[i]->get() != addr) moved++;
+				if ((k & 3) == 0) { Shared<CDer> back = b.as<CDer>(); sum += back->d; }
+			}
+			delete own[i];
+		}));
+	for (int i = 0; i < nth; i++) th[i].join();
+	long long want = (long long)nth * iters * 10 + (long long)nth * ((iters + 3) / 4) * 3;
+	if (moved != 0) return "converting copy redirected an existing handle " + str((int)moved) + " times";
+	if (sum != want) return "wrong payload sum " + str((long long)sum) + " expected " + str(want);
+	if (Tracked::live != 0) return "payload-live=" + str((int)Tracked::live) + " (leaked or destroyed twice)";
+	return "ok";
+}
+
+// SmartObject clones: every clone is a new object that dies with its last handle
+struct TObjC : public SmartObject_ { Tracked t; TObjC() : t(4) {} SmartObject_* clone() const { return new TObjC(*this); } };
+static std::string cloneCheck(int nth, int iters)
+{
+	SmartObject* A = new SmartObject(new TObjC);
+	std::vector<std::thread> th;
+	for (int i = 0; i < nth; i++)
+		th.push_back(std::thread([iters, A]() {
+			for (int k = 0; k < iters; k++) {
+				SmartObject h(*A);
+				SmartObject c = h.clone();
+				SmartObject c2 = c;
+				SmartObject c3 = c2.clone();
+			}
+		}));
+	for (int i = 0; i < nth; i++) th[i].join();
+	delete A;
+	if (Tracked::live != 0) return "payload-live=" + str((int)Tracked::live) + " (a clone was never destroyed, or destroyed twice)";
+	return "ok";
+}
+
+// Atomic<T> copy assignment next to a thread that keeps the source busy; a watchdog turns a deadlock into a result
+static std::string atomicAssign(int iters)
+{
+	static Atomic<int> src(0);
+	static std::atomic<bool> stop;
+	static std::atomic<int> progress;
+	stop = false; progress = 0;
+	std::thread inc([]() { while (!stop) ++src; });
+	std::thread worker([iters]() { for (int i = 0; i < iters; i++) { Atomic<int> b(0); b = src; ++b; b = b; progress = i + 1; } });
+	double t0 = now();
+	int last = -1;
+	for (;;) {
+		usleep(100000);
+		int p = progress;
+		if (p >= iters) break;
+		if (p != last) { last = p; t0 = now(); }
+		else if (now() - t0 > 20.0) {
+			printf("deadlock: Atomic<T> copy assignment made no progress for 20 s after %d iterations\n", p);
+			fflush(stdout);
+			_exit(0);
+		}
+	}
+	stop = true;
+	worker.join();
+	inc.join();
+	return "ok";
+}
+
 static std::string stressCount(int nth, int iters)
 {
 	AtomicCount cnt(0);
@@ -403,6 +490,9 @@ static std::string step(const Toks& t)
 		else if (t[1] == "shared") r = stressHandles<HShared >(nth, it);
 		else if (t[1] == "smart") r = stressHandles<SmartObject>(nth, it);
 		else if (t[1] == "count") r = stressCount(nth, it);
+		else if (t[1] == "conv") r = stressConv(nth, it);
+		else if (t[1] == "clone") r = cloneCheck(nth, it);
+		else if (t[1] == "aassign") r = atomicAssign(it);
 		vs::install();
 		return r;
 	}
